@@ -53,6 +53,7 @@ type Obligation struct {
 	Pos       string
 	ExpectSat bool
 	Props     []string
+	Watch     []WatchItem
 	sc        *Script
 }
 
@@ -75,6 +76,7 @@ type Enc struct {
 	logs      map[string]bool
 	checkSafe bool
 	axSt      *State
+	immut     map[string]bool
 	frameChk  func(fr *Frame, what string, ref Term, st *State, rb Term, pos token.Pos)
 }
 
@@ -112,7 +114,7 @@ type Frame struct {
 func (w *World) NewEnc() *Enc {
 	st := NewSortTable()
 	e := &Enc{w: w, sorts: st, sc: NewScript(st), comps: &Comps{sorts: map[string]string{}},
-		inlined: map[string]bool{}, trusted: map[string]bool{}, havocked: map[string]bool{}, effFree: map[string]bool{}, unsupp: map[string]bool{}, logs: map[string]bool{}}
+		immut: map[string]bool{}, inlined: map[string]bool{}, trusted: map[string]bool{}, havocked: map[string]bool{}, effFree: map[string]bool{}, unsupp: map[string]bool{}, logs: map[string]bool{}}
 	e.comps.Register("$alloc", "(Array Int Bool)")
 	return e
 }
